@@ -3706,15 +3706,10 @@ class Score(object):
         self.parts[index] = part
 
     def __iter__(self) -> Iterator[Part]:
-        self.iter_idx = 0
-        return self
-
-    def __next__(self) -> Part:
-        if self.iter_idx == len(self.parts):
-            raise StopIteration
-        res = self[self.iter_idx]
-        self.iter_idx += 1
-        return res
+        # A new iterator for every call (the cursor is not stored on the
+        # score), so that nested or interleaved iterations over the same
+        # score are independent of each other.
+        return iter(self.parts)
 
     def __len__(self) -> int:
         """
